@@ -365,14 +365,23 @@ func (w *world) step() {
 			}
 			x := w.refs[r.Intn(len(w.refs))]
 			o = w.rid(x)
-			res = safely(func() { err = x.SetName(n) })
+			if r.Intn(2) == 0 {
+				res = safely(func() { err = x.SetName(n) })
+			} else {
+				// the generic tag setter is the other way to rename
+				res = safely(func() { err = x.Set(sam.NewTag("SN"), n) })
+			}
 		case "rgs":
 			if len(w.rgs) == 0 {
 				return
 			}
 			x := w.rgs[r.Intn(len(w.rgs))]
 			o = w.gid(x)
-			res = safely(func() { err = x.SetName(n) })
+			if r.Intn(2) == 0 {
+				res = safely(func() { err = x.SetName(n) })
+			} else {
+				res = safely(func() { err = x.Set(sam.NewTag("ID"), n) })
+			}
 		case "progs":
 			if len(w.pgs) == 0 {
 				return
